@@ -35,6 +35,8 @@ def gen_project(rng, ntasks, opts):
             if rng.random() < opts.get("dens", 0.35):
                 deps.append(p)
         deps = deps[:4]
+        if rng.random() < opts.get("p_pyval", 0.0):
+            deps.append(rng.choice([201, 202]))       # a hashed Python input
         prods = []
         for _ in range(rng.choice(opts.get("nprods", [1, 1, 1, 2, 0]))):
             nid += 1
@@ -139,6 +141,10 @@ def gen_history(rng, idx, base, opts):
             ops.append({"op": "set", "n": s, "c": c})
             contents[s] = c
             hist_vals.setdefault(s, []).append(c)
+    pyvals = sorted({d for t in tasks for d in t["deps"] if 200 <= d < 300})
+    for n in pyvals:
+        c = 2 * rng.randint(1, 20)
+        ops.append({"op": "set", "n": n, "c": c}); hist_vals.setdefault(n, []).append(c)
     nb = rng.randint(opts.get("min_builds", 2), opts.get("max_builds", 5))
     builds = 0
     first = True
@@ -148,14 +154,20 @@ def gen_history(rng, idx, base, opts):
                 k = rng.random()
                 allnodes = sorted({n for t in tasks for n in t["deps"] + t["prods"]} | set(sources))
                 prodnodes = sorted({n for t in tasks for n in t["prods"]})
-                if k < 0.22:
+                if pyvals and rng.random() < 0.3:
+                    # change a hashed input: to the permutation of the current list, or to another value
+                    n = rng.choice(pyvals)
+                    cur = hist_vals[n][-1]
+                    c = cur ^ 1 if rng.random() < 0.6 else 2 * rng.randint(1, 20) + rng.randint(0, 1)
+                    ops.append({"op": "set", "n": n, "c": c}); hist_vals[n].append(c)
+                elif k < 0.22:
                     s = rng.choice(sources)
                     c = fresh()
                     ops.append({"op": "set", "n": s, "c": c}); hist_vals.setdefault(s, []).append(c)
                 elif k < 0.32 and hist_vals:
                     s = rng.choice(sorted(hist_vals))
                     c = rng.choice(hist_vals[s])      # revert to earlier content
-                    ops.append({"op": "set", "n": s, "c": c})
+                    ops.append({"op": "set", "n": s, "c": c}); hist_vals[s].append(c)
                 elif k < 0.40:
                     ops.append({"op": "touch", "n": rng.choice(allnodes)})
                 elif k < 0.46:
@@ -419,6 +431,8 @@ def canon_impl(o, sigs):
     for sig, fname in o.get("nodes", {}).items():
         if fname.startswith("f") and fname.endswith(".txt"):
             sigs["n"][sig] = int(fname[1:-4])
+        elif fname.startswith("pv"):
+            sigs["n"][sig] = int(fname[2:])
         elif fname.startswith("pat") and fname.endswith(".in"):
             d, g = fname.split("/")
             sigs["n"][sig] = 10000 + 100 * int(d[3:]) + int(g[1:-3])
@@ -448,6 +462,10 @@ def canon_model(m, o, modsha):
     for t, k, v in db:
         if k == t or (k < 100):
             rows.add((t, k, modsha.get(v, f"?V{v}")))
+        elif 200 <= k < 300:
+            # hashed Python input: state = sha256 of the concatenated element hashes (ints hash to themselves)
+            import verif_rt
+            rows.add((t, k, EI.sha("".join(str(x) for x in verif_rt.vt_of(v)))))
         else:
             rows.add((t, k, EI.sha(str(v))))
     return {"exit": ex, "reports": [tuple(r) for r in reports], "log": list(log), "db": rows, "files": {n: c for n, c in fs},
